@@ -73,7 +73,8 @@ def run(ctx):
                 "spec->impl: parse of the canonical image and of every re-arranged image compared with the value (order "
                 "included), parse(serialize(v)) compared with v; impl->spec: serialize(v) of every generated value and of "
                 "seeded random maps up to 300 files (lengths around multiples of 32, Shift-JIS names) and of maps with 255/256/257, "
-                "4095/4096/4097 and 20 000 mostly empty files (thorough: also 65 535) validated by TLC with "
+                "4095/4096/4097 and 20 000 mostly empty files (thorough: also 65 535), and every empty/non-empty pattern over 1..5 "
+                "files, under the release and the checked build, validated by TLC with "
                 "the statement's conditions (well-formed, exact, 32-aligned bodies, reference parse = value). "
                 "Non-trivial = image holding at least one file.")
     binary = ctx.build("release", "mvh_cont")
@@ -82,11 +83,12 @@ def run(ctx):
     # spec -> impl (reader) and collection of the builder's images
     cases = cc.generate(ctx, "MC_Fe9Pack", "Gen_Fe9Pack.cfg")
     summ, unb, events = _replay(ctx, binary, cases, "pack", "release")
-    if not ctx.quick():
-        summ_c, unb_c, events_c = _replay(ctx, ctx.build("checked", "mvh_cont"), cases, "pack_checked", "checked")
-        events += events_c
-        ctx.traces += summ_c["images"]
-        ctx.extra["checked_profile_replayed"] = summ_c["cases"]
+    # the overflow-checked build in both tiers: release wraps where checked panics
+    checked = ctx.build("checked", "mvh_cont")
+    summ_c, unb_c, events_c = _replay(ctx, checked, cases, "pack_checked", "checked")
+    events += events_c
+    ctx.traces += summ_c["images"]
+    ctx.extra["checked_profile_replayed"] = summ_c["cases"]
     n_replay_events = len(events)
     ctx.traces += summ["images"]
     ctx.evaluations += summ["images"] + summ["cases"]
@@ -98,9 +100,14 @@ def run(ctx):
     ctx.extra.setdefault("informational_mismatches", 0)
     # impl -> spec: the builder's images of the generated values and of random maps, judged by TLC
     runs, max_files = ctx.pick((60, 300), (3000, 300))
-    rpath = ctx.path("pack_record.ndjson")
-    ctx.harness(binary, ["pack-record", rpath, str(runs), str(max_files), "bounds"] + ([] if ctx.quick() else ["big"]))
-    recorded = vlib.read_ndjson(rpath)
+    recorded = []
+    for profile, b, seed_shift in (("release", binary, 0), ("checked", checked, 7919)):
+        rpath = ctx.path("pack_record_%s.ndjson" % profile)
+        flags = ["bounds"] + ([] if ctx.quick() or profile == "checked" else ["big"])
+        ctx.harness(b, ["pack-record", rpath, str(runs // 2), str(max_files)] + flags, env={"VERIF_SEED": str(ctx.seed + seed_shift)})
+        for e in vlib.read_ndjson(rpath):
+            e["profile"] = profile
+            recorded.append(e)
     events += recorded
     _validate(ctx, events)
     ctx.traces += len(events)
